@@ -242,8 +242,30 @@ def is_trivial_nlri(fam, raw: bytes) -> bool:
 # ---------------------------------------------------------------------------- NLRI laws
 
 
+def sentinel_first_label(fam, o, neg) -> bool:
+    """a stack of two or more labels whose first is 0 (explicit null, RFC 4182) or 524288: the value RFC 3107 used as a next-hop / withdraw marker"""
+    if fam[1] not in (4, 128) or getattr(o, '_label_size', 0) <= 3:
+        return False
+    try:
+        raw = bytes(o._packed)
+    except Exception:  # noqa: BLE001
+        return False
+    base = 4 if getattr(o, '_has_addpath', False) else 0
+    return raw[base + 1 : base + 4] in (b'\x00\x00\x00', b'\x80\x00\x00')
+
+
 def nlri_laws(fam, o, neg, addpath: bool, action, x: bytes | None, canonical: bool, what: str, normalise_path: bool = False) -> bytes:
     """the round-trip laws for one object; returns its canonical bytes"""
+    try:
+        return _nlri_laws(fam, o, neg, addpath, action, x, canonical, what, normalise_path)
+    except Violation as v:
+        if sentinel_first_label(fam, o, neg):
+            # one root cause behind several broken laws: name it once (the decoder ends the stack on the first label)
+            raise V(f'{owner(FAMILY_CLASS[fam], "unpack_nlri")}:first-label-0-ends-the-stack', f'{v.message} [law: {v.signature}]') from None
+        raise
+
+
+def _nlri_laws(fam, o, neg, addpath: bool, action, x: bytes | None, canonical: bool, what: str, normalise_path: bool = False) -> bytes:
     packer = owner(o, 'pack_nlri')
     unpacker = owner(FAMILY_CLASS[fam], 'unpack_nlri')
     b = pack(o, neg)
@@ -686,7 +708,15 @@ def message_round_trip(nlri, nexthop, attributes, neg, what: str, withdraw: bool
     except Exception as exc:  # noqa: BLE001
         raise V(exception_signature(f'{tag}:re-encode', exc), f'{exc!r} for {what} read back from {m1.hex()}') from exc
     if m2 != [m1]:
-        raise V(f'{tag}:repack-differs', f'{what}: wrote {m1.hex()}, read it, wrote {[m.hex() for m in m2]}')
+        kind = 'repack-differs'
+        try:
+            w1, at1, n1 = corpus.split_update(m1[19:])
+            w2, at2, n2b = corpus.split_update(m2[0][19:]) if len(m2) == 1 else (None, b'', None)
+            if (w1, n1) == (w2, n2b) and at1 != at2 and sorted(split_tlvs(tag, at1)) == sorted(split_tlvs(tag, at2)):
+                kind = 'attribute-order-differs'
+        except (ValueError, struct.error):
+            pass
+        raise V(f'{tag}:{kind}', f'{what}: wrote {m1.hex()}, read it, wrote {[m.hex() for m in m2]}')
     return [tag], n2, a2
 
 
@@ -791,6 +821,13 @@ def parse_text(conf, rec: dict, text: str):
     return conf.scope.pop_routes()
 
 
+def flow_text(case: dict) -> str:
+    ports = ' '.join(f'={p}' for p in case['ports'])
+    dest = case['dest']
+    rd = f'route-distinguisher {case["rd"]}; ' if case.get('rd') else ''
+    return f'route {{ {rd}match {{ destination {dest}; destination-port [ {ports} ]; }} then {{ discard; }} }}'
+
+
 def check_route(case: dict) -> dict:
     exa.reset_global_state()
     sess = case.get('session', 'plain')
@@ -802,8 +839,24 @@ def check_route(case: dict) -> dict:
         what = f'{case["file"]}#{case["index"]} "{route.extensive()[:160]}" session={sess}'
         nontrivial, classes = route_laws(route, sess, what)
         return {'nontrivial': nontrivial, 'classes': sorted(set(classes + ['source:conf'])), 'sample': {'case': case, 'route': route.extensive()[:200]}}
-    rec = case['route']
     conf, _neighbor, _neg = session(sess)
+    if case['kind'] == 'flow':
+        text = flow_text(case)
+        try:
+            conf.flow.clear()
+            parsed = []
+            if conf.partial('flow', text, 'announce') and not conf.scope.location():
+                conf.scope.to_context()
+                parsed = conf.scope.pop_routes()
+        except Exception:  # noqa: BLE001 - an exception out of the parser is C18's subject
+            return {'nontrivial': False, 'classes': ['text:parse-exception']}
+        if len(parsed) != 1:
+            return {'nontrivial': False, 'classes': ['text:refused']}
+        nontrivial, classes = route_laws(parsed[0], sess, f'"flow {text[:120]}..." ({len(case["ports"])} ports) session={sess}')
+        size = len(bytes(parsed[0].nlri._packed)) if hasattr(parsed[0].nlri, '_packed') else 0
+        classes.append('flow:long' if len(case['ports']) * 2 > 240 else 'flow:short')
+        return {'nontrivial': nontrivial, 'classes': sorted(set(classes + ['source:flowtext'])), 'sample': {'text': text[:200], 'session': sess, 'size': size}}
+    rec = case['route']
     text = textgen.route_text(rec)
     try:
         parsed = parse_text(conf, rec, text)
@@ -867,7 +920,7 @@ def check(case: dict) -> dict:
         return check_nlri(case)
     if kind == 'attr':
         return check_attr(case)
-    if kind in ('conf', 'text'):
+    if kind in ('conf', 'text', 'flow'):
         return check_route(case)
     if kind == 'message':
         return check_message(case)
@@ -950,7 +1003,11 @@ def attr_fixed_cases() -> list:
 
 
 def route_fixed_cases() -> list:
-    cases = []
+    cases = [
+        {'kind': 'flow', 'dest': '10.0.0.0/24', 'ports': list(range(1000, 1070)), 'session': 'plain'},
+        {'kind': 'flow', 'dest': '10.0.0.0/24', 'ports': list(range(1000, 1080)), 'session': 'plain'},  # 4 + 3 * 80 = 244 bytes: the two-byte length form
+        {'kind': 'flow', 'dest': '10.0.0.0/24', 'ports': list(range(1000, 1130)), 'session': 'plain'},  # 394 bytes
+    ]
     for name in corpus.CONF_FILES:
         for i in range(len(conf_routes(name))):
             cases.append({'kind': 'conf', 'file': name, 'index': i, 'session': 'plain'})
@@ -1038,7 +1095,20 @@ def attr_cases(draw):
 
 
 @st.composite
+def flow_cases(draw):
+    n = draw(st.sampled_from([1, 2, 5, 40, 79, 80, 85, 86, 120, 127, 128, 200]))
+    ports = draw(st.lists(st.one_of(st.integers(1, 255), st.integers(256, 65535)), min_size=n, max_size=n))
+    v6 = draw(st.integers(0, 3)) == 0
+    case = {'kind': 'flow', 'dest': '2001:db8::/32' if v6 else '10.0.0.0/24', 'ports': ports, 'session': 'plain'}
+    if draw(st.integers(0, 3)) == 0:
+        case['rd'] = '65000:1'
+    return case
+
+
+@st.composite
 def text_cases(draw):
+    if draw(st.integers(0, 9)) == 0:
+        return draw(flow_cases())
     rec = draw(textgen.routes(rich=True))
     if rec['afi'] == 1 and rec['nexthop'] != 'self' and ':' in rec['nexthop']:
         rec['nexthop'] = '10.9.8.7'  # an IPv6 next hop for IPv4 NLRI needs RFC 8950, which is not what is measured here
